@@ -1271,8 +1271,9 @@ fn render(rng: &mut Rng, toks: &[Tok], l: &Layout) -> Rendered {
         let mut need_newline = false; // a line comment was written: the token must start on a new line
         let mut had_comment = false;
         // comments
+        // CANDIDATE-FINDING C01-5e: a comment between /begin and A2ML makes the tokenizer reject the file: not generated
         let a2ml_tag = t.glue && matches!(&t.tk, Tk::Word(w) if w == "A2ML");
-        let inner_begin = !t.elem && t.tk == Tk::Begin;
+        // C01-5d / C18-F5 (comment in front of a /begin inside IF_DATA): repaired in /repo 182b4fe: generated and checked again
         // inside IF_DATA: from the token behind "/begin IF_DATA" up to and including the "/end" of "/end IF_DATA"
         if i > 1 && toks[i - 2].tk == Tk::Begin && matches!(&toks[i - 1].tk, Tk::Word(w) if w == "IF_DATA") {
             in_ifdata = true;
@@ -1281,7 +1282,7 @@ fn render(rng: &mut Rng, toks: &[Tok], l: &Layout) -> Rendered {
         if t.tk == Tk::End && matches!(toks.get(i + 1).map(|x| &x.tk), Some(Tk::Word(w)) if w == "IF_DATA") {
             in_ifdata = false;
         }
-        if !is_raw && !prev_raw && !a2ml_tag && !inner_begin && !(after_ifdata_tag && !l.comment_after_ifdata) {
+        if !is_raw && !prev_raw && !a2ml_tag && !(after_ifdata_tag && !l.comment_after_ifdata) {
             let n = if t.elem && rng.chance(l.kept_comments) {
                 1 + rng.below(2)
             } else if !t.elem && rng.chance(l.dropped_comments) {
@@ -2430,17 +2431,12 @@ fn vf_driver_c01() {
         lay.raw_newlines_in_strings = rng.chance(40);
         lay.a2ml_end_same_line = rng.chance(10);
         lay.multiline_kept = rng.chance(25);
-        // CANDIDATE-FINDING C01-5: comments inside IF_DATA are dropped, but they change how the content is structured on the
-        // first load (a comment behind "/begin IF_DATA": the leading tag is not recognised; behind a nested block: the next
-        // identifier is no tag; in front of "/end IF_DATA" of A2ML described data: fallback to the generic parser), so the
-        // reloaded model differs. A comment between two sibling blocks inside uninterpreted IF_DATA and a comment between
-        // /begin and A2ML even make the loader reject the file. No comments inside IF_DATA here.
-        lay.comment_after_ifdata = false;
+        // C01-5 a/a2/b/c/d (comments inside IF_DATA): repaired in /repo 55f5ff1, 182b4fe, 7aa9d8e: generated and checked again
+        // (C01-5e, a comment between /begin and A2ML, stays carved out in render())
+        lay.comment_after_ifdata = true;
         lay.max_blank = 1 + rng.below(4);
-        // CANDIDATE-FINDING C01-4: when position restricted items (RECORD_LAYOUT) are not in ascending order the writer
-        // sorts them but leaves comments in their slots: an item can land behind a line comment on the same line and is
-        // then part of the comment (the item is lost, or the written text does not load). No kept line comments then.
-        lay.kept_line_comments = !doc.reordered;
+        // C01-4 (reordered RECORD_LAYOUT item written behind a `//` comment): repaired in /repo 6bcb276: generated and checked again
+        lay.kept_line_comments = true;
         let r = render(&mut rng, &doc.toks, &lay);
         // CANDIDATE-FINDING C01-1: a block comment that spans lines and stands between block-level elements makes the
         // written text grow on every cycle (the element behind it is pushed down by the comment's inner line count each
@@ -2449,13 +2445,11 @@ fn vf_driver_c01() {
         let k = 1 + (i % 4);
         let strict = rng.chance(50);
         let via_file = i % 10 == 3;
-        // CANDIDATE-FINDING C01-2: with CRLF line ends the text of an A2ML block is stored with its "\r" characters but
-        // the leading line break is written as "\n": the reloaded model has a different a2ml_text (the text is stable).
+        // C01-2 (CRLF file with an A2ML block): repaired in /repo e299b95: generated and checked again
         // CANDIDATE-FINDING C01-3: several RESERVED entries of one RECORD_LAYOUT that are not in ascending position order
         // are written sorted, so the reloaded Vec<Reserved> has another order than the loaded one.
-        // In both situations the cycles are compared with the first reloaded model instead of the original one.
-        let has_a2ml = doc.toks.iter().any(|t| matches!(t.tk, Tk::Raw(_)));
-        let check_model0 = !(lay.crlf && has_a2ml) && !doc.reserved_reordered;
+        // In this situation the cycles are compared with the first reloaded model instead of the original one.
+        let check_model0 = !doc.reserved_reordered;
         if text_case(&mut rep, &format!("gen{}", i % 7), r.text.clone(), strict, k, via_file, check_text, check_model0) {
             accepted += 1;
         } else if debug {
